@@ -13,12 +13,12 @@ def jobs(tier):
     for kind, kn in ((1, "counter"), (0, "register")):
         for sn, dag in LINEAR.items():
             n = dag.count("|") + 1
-            js.append({"id": f"O.seek.{kn}.{sn}", "func": "VerifH_C03_SeekTo", "conf": {"n": n, "kind": kind, "dag": dag, "orders": "two"},
+            js.append({"id": f"O.seek.{kn}.{sn}", "func": "VerifH_C03_SeekTo", "conf": {"n": n, "kind": kind, "dag": dag, "orders": "two", "shortid": 0},
                        "_obligation": "O", "_covers": ["sought"], "unwind": 40, "reset_mode": True})
         n = 3 if tier == "quick" else 4
-        js.append({"id": f"O.seek.{kn}.any-dag.n{n}", "func": "VerifH_C03_SeekTo", "conf": {"n": n, "kind": kind, "dag": "", "orders": "all"},
+        js.append({"id": f"O.seek.{kn}.any-dag.n{n}", "func": "VerifH_C03_SeekTo", "conf": {"n": n, "kind": kind, "dag": "", "orders": "all", "shortid": 0},
                    "_obligation": "O", "_covers": ["sought"], "unwind": 40, "reset_mode": True})
-    js.append({"id": "twin", "func": "VerifH_C03_Reach", "conf": {"dag": "", "orders": "all"}, "_obligation": "vacuity", "_expect": "twin", "_covers": ["end"]})
+    js.append({"id": "twin", "func": "VerifH_C03_Reach", "conf": {"dag": "", "orders": "all", "shortid": 0}, "_obligation": "vacuity", "_expect": "twin", "_covers": ["end"]})
     return js
 
 
